@@ -279,3 +279,14 @@ CLAIM = {
 # SESSION7 additions to the claim (clauses added in DESIGN section 12)
 CLAIM['technique'] += '; digest-intact typestate on the chunk verdict; static inventory restricted to unit decoding'
 CLAIM['text'] += ' C15-d (extended): the computed chunk digest is compared as computed. C15-e: unit decoding keeps nothing in static storage.'
+
+MUTANTS += [
+    {'id': 'm15z', 'desc': 'computed digest zeroed whenever the index digest starts with a zero byte (after seeded c15r7)',
+     'file': 'src/lib/hash/hash.c', 'old': """    if(idx->comp_length == 0)
+        memset(digest, 0, idx->digest_size);""", 'new': """    if(idx->digest[0] == 0)
+        memset(digest, 0, idx->digest_size);""", 'expect': 'R2.digest-intact validate_chunk'},
+    {'id': 'n15z', 'desc': 'nothing-stored test with the constant on the left', 'file': 'src/lib/hash/hash.c',
+     'old': """    if(idx->comp_length == 0)
+        memset(digest, 0, idx->digest_size);""", 'new': """    if(0 == idx->comp_length)
+        memset(digest, 0, idx->digest_size);""", 'expect': None},
+]
